@@ -65,6 +65,9 @@ type world struct {
 // r1OSHook, when set, sees every file-system mutation LiteFS performs on R1 (op is the call site's label).
 var r1OSHook func(op, call, name string)
 
+// pOSHook is r1OSHook for the primary.
+var pOSHook func(op, call, name string)
+
 // r1Candidate makes the halt-lock holder itself a candidate for the lease (holder-promoted).
 var r1Candidate bool
 
@@ -90,7 +93,16 @@ func newWorld(wal bool, viol func(string, string, ...any), spawn func(func()), t
 			cfg.Retention = time.Second
 		}
 	}
-	cl.AddNode("P", true, nil)
+	cl.AddNode("P", true, func(cfg *lab.NodeConfig) {
+		cfg.WrapOS = func(inner litefs.OS) litefs.OS {
+			return &lab.HookOS{Inner: inner, Before: func(op, call, name string) error {
+				if pOSHook != nil {
+					pOSHook(op, call, name)
+				}
+				return nil
+			}}
+		}
+	})
 	cl.AddNode("R1", r1Candidate, func(cfg *lab.NodeConfig) {
 		cfg.ExitImage = true
 		cfg.WrapOS = func(inner litefs.OS) litefs.OS {
@@ -654,6 +666,98 @@ func run1(t *testing.T, c Case) (res Result) {
 			lab.Settle(12 * time.Second) // the lock on the former primary's books expires (TTL 8 s)
 			w.checkAll("holder-promoted")
 			res.Class = "holder-promoted-ok"
+		case "release-during-forwarded-apply":
+			// The lock is released (its owner's other connection sends DELETE /halt) or expires while the primary's
+			// handler is in the middle of a forwarded transaction: after it found the lock held, before the file enters
+			// the log. Variant 1: a local writer on the primary is waiting for its turn too. The former holder can no
+			// longer publish: either the release takes effect first and the forwarded transaction is refused, or the
+			// transaction is published whole and the release (and the writer) come after it; the primary's log,
+			// position and files are consistent either way and nothing that was acknowledged is lost.
+			if err := w.acquire(); err != nil {
+				viol("C13/acquire-failed", "acquiring the halt lock failed: %v", err)
+				return
+			}
+			fired, wCommitted, releasedBeforeRename := false, false, false
+			var imgW *oracle.Image
+			done := make(chan struct{})
+			pOSHook = func(op, call, name string) {
+				if fired || op != "WRITELTX" || call != "rename" {
+					return
+				}
+				fired = true
+				go func() {
+					defer close(done)
+					if id := P.DB("db").VerifHaltLockID(); id != 0 {
+						P.DB("db").ReleaseHaltLock(context.Background(), id)
+					}
+					if c.Variant == 1 {
+						cn := pager.NewConn(P.M, "db", 401, ps)
+						tries := 0
+						cn.Busy = func() bool { tries++; time.Sleep(time.Millisecond); return tries < 2000 }
+						defer cn.Close()
+						if w.wal {
+							if cur, err := cn.ReadImageWAL(); err == nil {
+								x := cn.RunWTx(pager.WTx{Frames: []uint32{1, 3}, Outcome: "commit"}, cur)
+								wCommitted, imgW = x.Committed, x.Intended
+							}
+						} else if cur, err := cn.ReadImage(); err == nil {
+							x := cn.RunRTx(pager.RTx{Mods: []uint32{3}, Final: "DELETE", Outcome: "commit"}, cur)
+							wCommitted, imgW = x.Committed, x.Intended
+						}
+					}
+				}()
+				synctest.Wait() // release and writer run until they finish or have to wait
+				releasedBeforeRename = P.DB("db").VerifHaltLockID() == 0
+			}
+			defer func() { pOSHook = nil }()
+			before := posOf(P)
+			ok, terr, step := w.txOn(R, 3, []uint32{2})
+			pOSHook = nil
+			if !fired {
+				res.Harness = "the forwarded file never reached the primary's log directory"
+				return
+			}
+			select {
+			case <-done:
+			case <-time.After(60 * time.Second):
+				viol("C13/release-hangs", "a release issued while a forwarded transaction was in flight did not return within 60 s after that transaction ended")
+				return
+			}
+			_ = w.release()
+			lab.Settle(2 * time.Second)
+			// one finding, one key: what went wrong is listed in the text
+			var wrong []string
+			if ok && releasedBeforeRename {
+				wrong = append(wrong, fmt.Sprintf("the holder's commit was acknowledged although the lock had been released before its file entered the primary's log (primary %s -> %s)", before, posOf(P)))
+			}
+			if codes := P.ExitCodes(); len(codes) > 0 {
+				wrong = append(wrong, fmt.Sprintf("the primary called Store.Exit(%v)", codes))
+			}
+			if ok && wCommitted && uint64(posOf(P).TXID) != uint64(before.TXID)+2 {
+				wrong = append(wrong, fmt.Sprintf("the holder's commit and a local commit were both acknowledged but the primary moved from %s to %s", before, posOf(P)))
+			}
+			want := w.img
+			if wCommitted {
+				want = imgW
+			}
+			if len(wrong) == 0 {
+				if _, fs := mon.CheckDB(P, "db", want); len(fs) > 0 {
+					for _, f := range fs {
+						wrong = append(wrong, "primary: "+f.What)
+					}
+				}
+			}
+			if len(wrong) > 0 {
+				viol(fmt.Sprintf("C13/forwarded-tx-after-release/v%d", c.Variant), "the halt lock was released while POST /tx was between its lock check and the rename of the forwarded file (released before the rename: %v; local writer committed: %v; holder's commit: ok=%v err=%v at %q):\n  %s", releasedBeforeRename, wCommitted, ok, terr, step, strings.Join(wrong, "\n  "))
+				res.Class = "release-during-forwarded-apply-broken"
+				return
+			}
+			w.img = want
+			if okP, err, st := w.txOn(P, 20, []uint32{3}); !okP {
+				viol("C13/writer-after-release", "after the release a local transaction on the primary failed at %q: %v", st, err)
+			}
+			w.checkAll("release-during-forwarded-apply")
+			res.Class = fmt.Sprintf("release-during-forwarded-apply holder-ok=%v writer=%v released-first=%v", ok, wCommitted, releasedBeforeRename)
 		case "halt-over-hot-journal":
 			// An application on the primary died in the middle of a rollback-journal transaction: its locks are gone, its
 			// journal and the pages it had already overwritten are still there. Then a replica asks for the halt lock. The
@@ -1201,6 +1305,24 @@ func harnessB(cfgJSON json.RawMessage) sched.Harness {
 				}
 			})
 		}
+		// Monitor inside every page write LiteFS performs on the primary on its own (the apply of a forwarded
+		// transaction): the write set must be held exclusively at that moment - by the halt lock's guard set.
+		pdb := P.DB("db")
+		e.Observer = func(site string, obj any, a int64, internal bool) {
+			d, ok := obj.(*litefs.DB)
+			if !ok || d != pdb || site != "db.writepage" || !internal {
+				return
+			}
+			need := []litefs.LockType{litefs.LockTypePending, litefs.LockTypeShared, litefs.LockTypeReserved}
+			if d.Mode() == litefs.DBModeWAL {
+				need = []litefs.LockType{litefs.LockTypeWrite, litefs.LockTypeCkpt, litefs.LockTypeRecover}
+			}
+			for _, l := range need {
+				if _, ex := d.VerifMutex(l).VerifDump(); ex == nil {
+					viol("C13/forwarded-apply-without-lock/"+l.String(), "the primary writes page %d of a forwarded transaction while nobody holds %s exclusively (the halt lock was released or expired between the handler's check and its apply)", a, l)
+				}
+			}
+		}
 		e.Run(prefix)
 		if e.Aborted() {
 			return "aborted", viols
@@ -1265,6 +1387,7 @@ func TestCheck(t *testing.T) {
 		cases = append(cases, Case{Scenario: "lagging-acquire", WAL: wal, Variant: 0}, Case{Scenario: "lagging-acquire", WAL: wal, Variant: 1},
 			Case{Scenario: "acquire-timeout", WAL: wal}, Case{Scenario: "expiry-snapshot", WAL: wal}, Case{Scenario: "holder-promoted", WAL: wal},
 			Case{Scenario: "halt-over-hot-journal", WAL: wal},
+			Case{Scenario: "release-during-forwarded-apply", WAL: wal, Variant: 0}, Case{Scenario: "release-during-forwarded-apply", WAL: wal, Variant: 1},
 			Case{Scenario: "release-during-commit", WAL: wal, Variant: 0}, Case{Scenario: "release-during-commit", WAL: wal, Variant: 1}, Case{Scenario: "release-during-commit", WAL: wal, Variant: 2})
 		for v := 0; v < 18; v++ {
 			cases = append(cases, Case{Scenario: "tx-matrix", WAL: wal, Variant: v})
